@@ -44,6 +44,20 @@ type blockCol struct {
 
 // expectedBlock builds the block bytes from model-provided column encodings and harness-own header encoding.
 func expectedBlock(c *Ctx, rev int, withInfo bool, cols []blockCol, rows int) ([]byte, bool) {
+	if withInfo && c.D != nil {
+		// the whole block from Model.Block.enc (the definition the block round-trip theorem is about)
+		var parts []string
+		for _, bc := range cols {
+			parts = append(parts, fmt.Sprintf("(%s %s %s)", hx([]byte(bc.name)), hx([]byte(bc.col.Type())), bc.cn.ModelCol()))
+		}
+		ans := c.D.Ask(fmt.Sprintf("c02.block %d -1 %d (%s)", rev, rows, strings.Join(parts, " ")))
+		c.R.Compared()
+		f := strings.Fields(ans)
+		if len(f) == 2 && f[0] == "ok" {
+			return unhx(f[1]), true
+		}
+		return nil, false
+	}
 	var b []byte
 	if withInfo && rev >= 51903 {
 		b = append(b, 1, 0, 2, 0xff, 0xff, 0xff, 0xff, 0) // BlockInfo{BucketNum: -1}
